@@ -168,13 +168,13 @@ def r3_r5(ctx, F, hub):
         cfg = fl.cfg
         handler = b.parent.split('::')[-1]
         cas = fl.calls_to('wire::cas_decide')
-        cur = fl.calls_to('serve::current_hash')
+        cur = fl.calls_to(hub.current_hash)
         if len(cas) != 1:
             ctx.bad('C03.R3', '%s:cas_decide' % handler, 'the held region of %s does not call cas_decide exactly once' % handler, loc(b, b.lo))
             continue
         cb, ct = cas[0]
         o_cur = fl.origins(ct['args'][0])
-        cur_ok = bool(o_cur) and all(o.kind == 'call' and o.key == 'serve::current_hash' for o in o_cur)
+        cur_ok = bool(o_cur) and all(o.kind == 'call' and o.key == hub.current_hash for o in o_cur)
         # the hashed path is the live destination
         path_ok = False
         for o in o_cur:
@@ -221,7 +221,7 @@ def r3_r5(ctx, F, hub):
         # the operation, or (delete only) the edge on which the path is known to be absent already
         absent_e = set()
         for ib, it in fl.calls(lambda c: c in ('std::option::Option::<T>::is_some', 'std::option::Option::<T>::is_none')):
-            if all(o.kind == 'call' and o.key == 'serve::current_hash' for o in fl.origins(it['args'][0])):
+            if all(o.kind == 'call' and o.key == hub.current_hash for o in fl.origins(it['args'][0])):
                 oc2 = fl.outcomes(ib)
                 absent_e |= oc2.get('false' if callee(it).endswith('is_some') else 'true', set())
         for name, field, val, verb in (('PutResult', 'committed', 1, 'rename'), ('DeleteResult', 'deleted', 1, 'remove_file')):
@@ -252,7 +252,14 @@ def reply_rule(ctx, b, fl, op_bb, name, field, val, key):
                 i = rv['fields'].index(field)
                 if rv['ops'][i]['k'] == 'const' and rv['ops'][i].get('v') == val and cfg.can_reach(op_bb, bi):
                     found = True
-                    ctx.check(fl.guarded_by(bi, op_bb, 'Ok'), 'C03.R5', key, '%s{%s:%s} only under the Ok edge of the file operation' % (name, field, bool(val)),
+                    # once the operation has run, the success reply must be unreachable from its Err outcome (a path that
+                    # legitimately skips the operation - nothing to delete - is judged by the absent-edge rule below)
+                    oc_ = fl.outcomes(op_bb)
+                    err_reach = set()
+                    for (s_, t_, lab_) in oc_.get('Err', set()):
+                        err_reach |= cfg.reach(t_)
+                    inspected = bool(oc_.get('Err')) and bool(oc_.get('Ok'))
+                    ctx.check(fl.guarded_by(bi, op_bb, 'Ok') or (inspected and bi not in err_reach), 'C03.R5', key, '%s{%s:%s} only under the Ok edge of the file operation' % (name, field, bool(val)),
                               'the reply %s{%s:%s} is sent although the %s it reports may have failed (its result is discarded)' % (
                                   name, field, str(bool(val)).lower(), callee(b.blocks[op_bb]['term']).split('::')[-1]), loc(b, st['line']))
     if not found:
@@ -287,7 +294,7 @@ def staging_ownership(ctx, F, hub, rid):
         held = hub.in_held_region(b)
         # per-writer component inside tmp_of or at the call site
         uniq = False
-        tb = F.body('serve::tmp_of')
+        tb = F.body(hub.tmp_of) if hub.tmp_of else None
         for body in [tb, b]:
             if body is None:
                 continue
@@ -338,7 +345,9 @@ def r7(ctx, F):
             if rv['k'] == 'agg' and rv.get('adt') == 'wire::Request' and rv.get('vname') == 'Put':
                 i = rv['fields'].index('expected')
                 eo2 = pfl.origins(rv['ops'][i])
-                e_i = param_index(p, 'expected')
+                # the CAS parameter by type (the fn's only Option<[u8; 32]>), whatever it is called
+                opt_hash = [k_ for k_ in range(1, p.argc + 1) if p.local_ty(k_).replace(' ', '') == 'std::option::Option<[u8;32]>']
+                e_i = opt_hash[0] if len(opt_hash) == 1 else param_index(p, 'expected')
                 good = bool(eo2) and all(o.kind == 'param' and o.key == e_i and not o.path for o in eo2)
     ctx.check(good, 'C03.R7', 'HubClient::put:expected-forwarded', 'Request::Put.expected is the parameter unchanged',
               'HubClient::put does not forward `expected` unchanged into Request::Put', loc(p, p.lo))
